@@ -1381,13 +1381,13 @@ def run(rep):
                  'files of find_files drop out of the dist rule (DESIGN 7.4)',
                  {'stage': 'probe', 'files': {'build.bfg': "find_files('d/*.c', extra='*.h')\n", 'd/a.c': '', 'd/a.h': ''},
                   'repro': 'configure, add d/b.c, make dist: d/a.h is missing'}, classes=('find-cache-hit-extra',))
-    nd = stage_w(rep, rng, 150 if thorough else 40, fixed, ip)
+    nd = stage_w(rep, rng, 400 if thorough else 40, fixed, ip)
     before = len(rep.violations)
     stage_corpus(rep)
-    stage_system(rep, rng, 30 if thorough else 3, 8 if thorough else 1)
+    stage_system(rep, rng, 50 if thorough else 3, 12 if thorough else 1)
     if nd and len(rep.violations) == before:
         # the tie broke but the oracle saw nothing: look for a failing input with ten times the budget
-        stage_system(rep, rng, 60 if thorough else 30, 15 if thorough else 8)
+        stage_system(rep, rng, 100 if thorough else 30, 20 if thorough else 8)
 
 
 def replay(rep, path):
